@@ -124,15 +124,23 @@ class LMEModel(StatelessModel):
         # assert 'random_intercept' in individual_parameters
         if not self.with_random_slope_age:
             # no random slope on ages (fixed effect only)
-            re_params = np.array([individual_parameters["random_intercept"].item(), 0])
+            re_params = np.array(
+                [self._to_float(individual_parameters["random_intercept"]), 0]
+            )
         else:
             # assert 'random_slope_age' in individual_parameters
             re_params = np.array(
                 [
-                    individual_parameters["random_intercept"].item(),
-                    individual_parameters["random_slope_age"].item(),
+                    self._to_float(individual_parameters["random_intercept"]),
+                    self._to_float(individual_parameters["random_slope_age"]),
                 ]
             )
         y = X @ (self.parameters["fe_params"] + re_params)
 
         return torch.tensor(y, dtype=torch.float32).reshape((1, -1, 1))
+
+    @staticmethod
+    def _to_float(value) -> float:
+        # numpy scalars right after a personalization, plain floats (or one-element
+        # lists) once the individual parameters went through a save / load
+        return float(np.asarray(value, dtype=float).reshape(-1)[0])
